@@ -136,6 +136,8 @@ pub fn framing_spaces(tier: Tier) -> Vec<ByteSpace> {
     v.push(bytes::dense_chain_space(nd));
     v.push(bytes::dense_size_space(nd));
     v.push(bytes::dense_total_space(nd));
+    v.push(bytes::big_chain_space());
+    v.push(bytes::count_x_length_space());
     v
 }
 
